@@ -13,17 +13,20 @@ from .repo import RepoIndex
 from .engine import Engine
 from . import solve
 
-CONTRACT_MODULES = ["kernel", "notification", "locks"]
+CONTRACT_MODULES = None
 
 
 def load_registry(mods=None):
     sys.path.insert(0, os.path.dirname(os.path.dirname(os.path.abspath(__file__))))
-    for m in (mods or CONTRACT_MODULES):
+    if mods is None:
+        from .runner import contract_modules
+        mods = contract_modules()
+    for m in mods:
         importlib.import_module("contracts." + m)
     return dsl.REG
 
 
-def verify_one(fqn, repo=None, reg=None, facts=None, solve_it=True):
+def verify_one(fqn, repo=None, reg=None, facts=None, solve_it=True, tier="quick"):
     repo = repo or RepoIndex()
     reg = reg or load_registry()
     eng = Engine(repo, reg, facts)
@@ -52,6 +55,9 @@ def verify_one(fqn, repo=None, reg=None, facts=None, solve_it=True):
                 v, m, dt, be = solve.check(ax, ob.pc, ob.goal)
             o = {"name": ob.name, "kind": ob.kind, "clause": ob.clause, "verdict": v, "time": round(dt, 4),
                  "backend": be, "path": ob.trace, "props": ob.props}
+            if tier == "thorough" and v == "discharged" and be != "trivial":
+                xv, xbe = solve.cross_check(ax, ob.pc, ob.goal)
+                o["cross"] = {"verdict": xv, "backend": xbe}
             if v == "refuted":
                 o["model"] = solve.model_summary(m, getattr(ob, "locals_view", {}))
                 o["goal"] = str(ob.goal)[:2000]
